@@ -1230,7 +1230,9 @@ pub fn generate(seed: u64, tier: Tier, p: &Profile) -> Scenario {
                     // plain setters first (whatever they hold is replaced by what the checked call computes)
                     coll_ops.push(Op::CollTotal(t));
                     if g.r.chance(1, 2) {
-                        coll_ops.push(Op::CollReturn(OutSpec { addr: ret_addr.clone(), coin: 1 + g.r.below(g.min_ada(0)), assets: vec![], datum: None, script_ref: None, min_coin: false, form: 0 }));
+                        // (at the address the checked call will name, or at another one)
+                        let plain_addr = if g.r.chance(1, 2) { ret_addr.clone() } else { g.key_addr() };
+                        coll_ops.push(Op::CollReturn(OutSpec { addr: plain_addr, coin: 1 + g.r.below(g.min_ada(0)), assets: vec![], datum: None, script_ref: None, min_coin: false, form: 0 }));
                     }
                 }
                 coll_ops.push(Op::CollTotalAndReturn(t, ret_addr.clone()));
